@@ -11,7 +11,7 @@ from collections.abc import Callable, Iterable, Iterator
 from math import log
 
 from wn._types import AnyPath
-from wn._core import Synset, Wordnet
+from wn._core import Synset, Wordnet, _INFERRED_SYNSET
 from wn.constants import NOUN, VERB, ADJ, ADV, ADJ_SAT
 from wn.util import synset_id_formatter
 
@@ -145,7 +145,10 @@ def compute(
                     continue
                 seen.add(ss)
 
-                freq[pos][ss.id] += weight
+                # synsets inferred from an expand lexicon have no entry
+                # of their own, but their hypernyms may
+                if ss.id != _INFERRED_SYNSET:
+                    freq[pos][ss.id] += weight
 
                 if ss not in hypernym_cache:
                     hypernym_cache[ss] = ss.hypernyms()
